@@ -227,6 +227,13 @@ func (p *Proxy) processRequest(r responder.Responder, req *http.Request, key cac
 	case fetchTypeDirect:
 		defer fetched.Direct.Response.Body.Close()
 
+		if fetched.Direct.UpstreamStatus < 100 || fetched.Direct.UpstreamStatus > 999 {
+			// Not a status code that can be written to the client (net/http panics on it).
+			slog.Error("Upstream answered with an invalid status code", "url", req.URL, "status", fetched.Direct.UpstreamStatus)
+			r.WriteError("upstream sent an invalid status code", http.StatusBadGateway)
+			return ErrBadGateway
+		}
+
 		r.SetHeaders(fetched.Direct.Response.Header)
 		if fetched.Direct.UpstreamStatus >= 200 && fetched.Direct.UpstreamStatus < 300 {
 			r.SetHeader("Accept-Ranges", "bytes")
